@@ -101,6 +101,17 @@ theorem govExec_rel (m : Msg) (s : State) : R s (govExec wall s m).1 := by
       exact handle_rel wall R hrefl htrans hleaf m s s' r h
     · exact hrefl s
 
+include hrefl htrans hleaf in
+/-- a governance proposal with several messages in EndBlock -/
+theorem govExecAll_rel (msgs : List Msg) (s : State) : R s (govExecAll wall s msgs).1 := by
+  unfold govExecAll
+  split
+  · split
+    · rename_i s' rs h
+      exact runMsgs_rel wall R hrefl htrans hleaf msgs s s' rs h
+    · exact hrefl s
+  · exact hrefl s
+
 end lift
 
 /-- the transaction pipeline: if ante steps and message steps are `R` steps, so is `deliverTx` -/
